@@ -88,6 +88,13 @@ TEXTS['T8'] = ('S2', [('sec', 'ta', 'first', [('kv', 'ka', '0')]),
 SPECS_K += [('T8', [['a:b/ka=', V1]]), ('T8', [['A:B/ka=', V1], ['first/ka=7']]), ('T8', [['n\u017f/ka=', V1]]),
             ('T8', [['N\u017f/ka=', V1]]), ('T8', [['\u00c9B/kb=', V1]]), ('T8', [['ns/ka=', V1]]), ('T8', [['b+c/ka=', V1]])]
 
+# a multikey of a section reached by specifiers that address the section by its TYPE and by its NAME, mixed:
+# the values arrive in the order the specifiers were given
+TEXTS['T15'] = ('S15', [('sec', 'ta', 'n1', [('kv', 'kl', 'a')]), ('sec', 'ta', 'sa', [])])
+SPECS_K += [('T15', [['ta/kl=one'], ['n1/kl=', V1], ['ta/kl=three']]),
+            ('T15', [[W2, '/kl=', V1], ['n1/kl=two'], ['TA/kl=3']]),
+            ('T15', [['n1/da=1'], ['ta/da=', V1], ['N1/da=3']])]
+
 # '%import' lines are carried as ('raw', line, None) items: rendered verbatim, never edited
 TEXTS['I1'] = ('I12', [('raw', '%import vfq_a', None),
                        ('sec', 'pa', 'n1', [('kv', 'ka', '1')]),
